@@ -723,7 +723,8 @@ def shard(args):
         for i, (family, spec) in enumerate(all_cases(quick)):
             if i % n != idx:
                 continue
-            subsets = (not quick) or family == "full"
+            # (3-agent products: cuts only -- 3 agents x every subset split is covered by the FULL family)
+            subsets = family == "full" if quick else not (family == "agents" and len(spec["agents"]["list"]) == 3)
             statuses, obs = run_spec(spec, subsets, part, tmpdir, srcfile)
             part.count("dcops")
             part.count("dcops_" + family)
@@ -746,7 +747,7 @@ def run(ctx):
         "route table per pair {unspecified,1,3,0 | 0.5} x hosting default {unset,2} x specific hosting {none, 1 entry with cost 0, 3 entries}, "
         "plus shared hosting dict objects; FULL = all sections at once. Each DCOP is built with the API, dumped with dcop_yaml "
         "and loaded from the string, from one file as str, from one file as [str], from every 2-file cut of the top-level "
-        "sections, and (thorough: every DCOP; quick: FULL family) from every 2-file split of the sections into arbitrary "
+        "sections, and (thorough: every DCOP but the 3-agent products of AGENTS; quick: FULL family) from every 2-file split of the sections into arbitrary "
         "subsets whose concatenation keeps the documented section order; evaluations = loads. Every loaded DCOP is compared "
         "by value with the reference model at every domain, variable, constraint x assignment, agent x (capacity, route to "
         "every agent, hosting cost of every computation name). Non-trivial = the DCOP has a constraint, an initial value or an "
